@@ -92,6 +92,15 @@ class C05(Check):
         else:
             lo, hi = gen.EOP_FIRST, gen.EOP_LAST - dt.timedelta(seconds=int(total) + 86400)
         start = gen.draw_start(rng, lo, hi, whole_minute_p=0.05)
+        if synth and rng.random() < 0.2:
+            # century / leap-rule corner years of the 1901-2099 domain
+            y = rng.choice([2000, 2000, 1904, 2096, 1999, 2001, 1901, 2099, 2004])
+            try:
+                cand = start.replace(year=y)
+                if lo <= cand <= hi:
+                    start = cand
+            except ValueError:
+                pass
         orb = gen.draw_orbit(rng, rng.choice(["leo", "geo", "meo"]))
         lat, lon, alt = gen.draw_site(rng)
         sensor = gen.ground_sensor(90001, lat, lon, alt, gen.sensor_block("optical"))
